@@ -1,3 +1,5 @@
+//go:build all || c14
+
 package props
 
 import (
